@@ -1,15 +1,20 @@
 import TsRsVerif.Model.TsWitness
 import TsRsVerif.Model.TsEval
 import TsRsVerif.Lemmas.MemberbSound
+import TsRsVerif.Lemmas.DeComplete2
+import TsRsVerif.Lemmas.UnfoldCheck
 /-!
 # C02 — every inhabitant of the generated TypeScript type deserializes
 
-C02 speaks about serde's `Deserialize`, which is decided on the IMPLEMENTATION: the check enumerates
-JSON witnesses of the real declarations (`Ts.witnesses`) and near-miss mutants of real samples,
-keeps those the sound membership test accepts, and feeds them to the real `serde_json::from_str`.
-Proven here is the part that makes a rejection a genuine counter-example: every candidate that is
-kept IS a member of the declared type in the formal semantics (`C02_kept_candidates_are_members`).
-A `de` model with a completeness theorem is not built (see DESIGN.md, C02 is PARTIAL).
+`Model/De.lean` is an acceptance model of serde's `Deserialize` (validated against the real `serde_json::from_str` on every
+candidate of every run). `C02_members_are_accepted` proves the property for the monomorphic, tagged fragment: a JSON value with
+distinct keys that inhabits the generated type is never rejected for its shape — the model accepts it, or rejects it only
+because of a LEAF (a number outside the Rust leaf type's range, a string that is not one character for `char`), which is what
+the statement's parenthesis excludes. The proof is a structural recursion on the membership derivation over every library type,
+struct shape and enum representation of the fragment (`Lemmas/DeComplete*.lean`). `C02_real_members_are_accepted` transports it
+to declarations with `#[ts(inline)]` through the unfolding theorem. Outside the fragment (generic instantiations, `untagged`,
+`flatten`) the check still feeds witnesses to the real Deserialize; `C02_kept_candidates_are_members` makes a rejection there a
+genuine counter-example.
 -/
 namespace TsRs
 open Text Ts
@@ -41,5 +46,50 @@ example : JVal.beqList (witnesses [] 24 10 (.union [.obj [({ name := "t".toList 
        .obj [("t".toList, .str "B".toList), ("c".toList, .arr [])],
        .obj [("t".toList, .str "B".toList), ("c".toList, .arr [.int 1])],
        .obj [("t".toList, .str "B".toList)]] = true := by decide +kernel
+
+open Tree De in
+/-- **every inhabitant is accepted (up to leaves)**: in a program of the fragment (`deFragB`: `Tree.fragB`, items without type
+parameters, no `untagged`, distinct variant keys, field types the acceptance model reads), for every type expression `t` over its
+items and every JSON value `j` with distinct keys that inhabits the tree-level TypeScript type of `t`: for all sufficient fuel the
+acceptance model of serde's Deserialize gives rank 0 (accepted) or 1 (rejected for a number out of the leaf's range or a
+non-one-character `char` only) — never a missing property, an unknown tag, a wrong arm, a wrong tuple length or a wrong kind of value. -/
+theorem C02_members_are_accepted (cfg : Cfg) (env : Env) (hF : deFragB cfg env = true) (t : RTy) (T : Ts) (j : JVal)
+    (hT : tyTs cfg env t = some T) (hok : tyOk cfg.limit t = true) (hw : wfJ j = true) (m : Member (declsOf cfg env) T j) :
+    ∃ f0, ∀ f, f0 ≤ f → accTy cfg env f t j ≤ 1 :=
+  accTy_good cfg env t j (gTy cfg env hF m t hT hok hw)
+
+open Tree De in
+/-- the same against declarations `D'` that the executable unfolding test accepts (the parsed REAL declarations of the program
+with its `#[ts(inline)]` marks): their members are members of the tree-level declarations (`unfold_same_values`), hence accepted -/
+theorem C02_real_members_are_accepted (cfg : Cfg) (env : Env) (hF : deFragB cfg env = true) (D' : Decls) (ufuel : Nat)
+    (hw : wsdB (declsOf cfg env) = true) (hu : declsUnfB (declsOf cfg env) ufuel (declsOf cfg env) D' = true)
+    (id : Str) (it : Item) (j : JVal) (hfind : env.find id = some it) (hwj : wfJ j = true)
+    (m : Member D' (.ref (Derive.tsName it) []) j) :
+    ∃ f0, ∀ f, f0 ≤ f → accTy cfg env f (.named id []) j ≤ 1 := by
+  have m0 : Member (declsOf cfg env) (.ref (Derive.tsName it) []) j :=
+    (unfold_same_values (wsdB_sound _ hw) (declsUnfB_sound _ D' ufuel hu) (unf_refl _ _) j).mpr m
+  refine C02_members_are_accepted cfg env hF (.named id []) _ j ?_ (by simp [tyOk]) hwj m0
+  simp [tyTs, Builtin.nameTyB, Builtin.nameTyBL, nameN, hfind]
+
+/-! non-vacuity: a program of the fragment (a struct with an optional field and a map, an internally tagged enum), a member, rank 0 -/
+def exDeEnv : Env := [
+  { isEnum := false, name := "P".toList, fields := [
+      { name := some "x".toList, ty := .prim "u8" },
+      { name := some "o".toList, ty := .option (.prim "String"), attr := { optional := .optional, skipSerIfNone := true } },
+      { name := some "m".toList, ty := .map (.prim "u32") (.vec (.prim "bool")) }] },
+  { isEnum := true, name := "E".toList, attr := { tag := some "t".toList }, variants := [
+      { name := "A".toList, shape := .unit, fields := [] },
+      { name := "B".toList, shape := .named, fields := [{ name := some "p".toList, ty := .named "P".toList [] }] }] }]
+def exDeCfg : Cfg := { ops := { isUpper := fun c => Case.isAsciiUpper c, isAlnum := fun _ => true, isNumeric := fun _ => false, strLower := id, strUpper := id } }
+def exDeJ : JVal := .obj [("t".toList, .str "B".toList), ("p".toList, .obj [("x".toList, .int 7), ("m".toList, .obj [("12".toList, .arr [.bool true])])])]
+
+example : deFragB exDeCfg exDeEnv = true := by decide +kernel
+example : wfJ exDeJ = true ∧ tyOk exDeCfg.limit (.named "E".toList []) = true := by decide +kernel
+#guard memberb (Tree.declsOf exDeCfg exDeEnv) 20 (.ref "E".toList []) exDeJ
+#guard De.accTy exDeCfg exDeEnv 20 (.named "E".toList []) exDeJ == 0
+-- a wrong tag, a missing required property: rejected for their shape; `x: 300` only for the leaf
+#guard De.accTy exDeCfg exDeEnv 20 (.named "E".toList []) (.obj [("t".toList, .str "C".toList)]) == 3
+#guard De.accTy exDeCfg exDeEnv 20 (.named "P".toList []) (.obj [("x".toList, .int 7)]) == 3
+#guard De.accTy exDeCfg exDeEnv 20 (.named "P".toList []) (.obj [("x".toList, .int 300), ("m".toList, .obj [])]) == 1
 
 end TsRs
